@@ -408,15 +408,104 @@ fn single_step_all_states(report: &Report, tier: Tier) {
         "letters": letters.len(), "states_satisfying_invariant": states, "real_encode_decode_calls": steps, "flushes": fl, "refills": rf}));
 }
 
+/// single-step induction from BOUNDARY head values on the wider instantiations (all 2^S heads cannot be
+/// enumerated there): both ends of the head range, every power of two +- 3, the flush thresholds
+/// p * 2^(S-P) +- 2 of every letter, the refill threshold 2^(S-W) +- 64; heads below 2^(S-W) only with an
+/// empty bulk (documented invariant). Same obligations as the all-states sweep.
+fn single_step_boundary<C: Cfg>(report: &Report, letters: &[Letter], width: u128) {
+    let (wb, sb) = (C::WBITS, C::SBITS);
+    let lo: u128 = 1u128 << (sb - wb);
+    let top: u128 = if sb == 128 { u128::MAX } else { (1u128 << sb) - 1 };
+    let mut heads: Vec<u128> = vec![];
+    for d in 0..width { heads.push(d); heads.push(lo + d); heads.push(lo.saturating_sub(d)); heads.push(top - d); }
+    for k in 0..sb { let b = 1u128 << k; for d in 0..=3u128 { heads.push(b + d); heads.push(b.saturating_sub(d)); } heads.push(b + b / 2); heads.push(b + b / 3); }
+    for l in letters {
+        let t = (l.p as u128) << (sb - l.prec as u32);
+        for d in 0..=2u128 { heads.push(t.wrapping_add(d) & top); heads.push(t.saturating_sub(d)); }
+        // states whose quantile sits on the letter's edges after a decode: low P bits = c, c+p-1
+        for base in [lo, lo * 3, top - (top >> 3)] {
+            let m = !((1u128 << l.prec) - 1);
+            heads.push(((base & m) | l.c as u128) & top);
+            heads.push(((base & m) | (l.c + l.p - 1) as u128) & top);
+        }
+    }
+    heads.retain(|&h| h <= top);
+    heads.sort(); heads.dedup();
+    let wmax: u128 = (1u128 << wb) - 1;
+    let tops: Vec<Option<u128>> = vec![None, Some(0), Some(1), Some(wmax), Some(wmax / 3)];
+    let res: Vec<(u64, u64, u64, u64, Vec<(String, String)>)> = heads.par_iter().map(|&h| {
+        let (mut steps, mut fl, mut rf, mut states) = (0u64, 0u64, 0u64, 0u64);
+        let mut bad = vec![];
+        for t in &tops {
+            if t.is_some() && h < lo { continue; }
+            states += 1;
+            let bulk: Vec<C::W> = match t { Some(w) => vec![C::w(0x33), C::w(*w)], None => vec![] };
+            let base = AnsCoder::<C::W, C::S>::from_raw_parts(bulk.clone(), C::s(h));
+            let same = |c: &AnsCoder<C::W, C::S>| to_u128(c.bulk()) == to_u128(&bulk) && c.state().into() == h;
+            let inv = |c: &AnsCoder<C::W, C::S>| c.bulk().is_empty() || c.state().into() >= lo;
+            for &l in letters {
+                let mut c = base.clone();
+                C::ans_encode(&mut c, l).unwrap();
+                if c.bulk().len() > bulk.len() { fl += 1; }
+                let inv_ok = inv(&c);
+                let k = C::ans_decode(&mut c, l).unwrap();
+                steps += 2;
+                if k != 1 || !same(&c) || !inv_ok {
+                    bad.push((format!("AnsCoder single step | {} | decode(encode(state)) != state", C::NAME),
+                        format!("state {h:#x} bulk {:x?} letter {:?}: decoded part {k}, back at (bulk {:x?}, state {:#x}), invariant after push {inv_ok}", to_u128(&bulk), l, to_u128(c.bulk()), c.state().into())));
+                }
+                let mut c = base.clone();
+                let k = C::ans_decode(&mut c, l).unwrap();
+                if c.bulk().len() < bulk.len() { rf += 1; }
+                let inv_ok = inv(&c);
+                let (pc, pp) = part_interval(l.prec, l.c, l.p, k);
+                if pp == 0 {
+                    bad.push((format!("AnsCoder single step | {} | decode returns a part of probability zero", C::NAME), format!("state {h:#x} letter {:?} part {k}", l)));
+                    continue;
+                }
+                C::ans_encode(&mut c, Letter::new(l.prec, pc, pp)).unwrap();
+                steps += 2;
+                if !same(&c) || !inv_ok {
+                    bad.push((format!("AnsCoder single step | {} | encode(decode(state)) != state", C::NAME),
+                        format!("state {h:#x} bulk {:x?} letter {:?}: popped part {k}, after re-push (bulk {:x?}, state {:#x}), invariant after pop {inv_ok}", to_u128(&bulk), l, to_u128(c.bulk()), c.state().into())));
+                }
+            }
+        }
+        (steps, fl, rf, states, bad)
+    }).collect();
+    let (mut steps, mut fl, mut rf, mut states) = (0, 0, 0, 0);
+    let mut shown = 0;
+    for (a, b, c, d, bad) in res {
+        steps += a; fl += b; rf += c; states += d;
+        for (i, d) in bad { if shown < 6 { shown += 1; report.violation(crate::report::Violation { identity: i, detail: d, case: json!({"kind": "none"}) }); } }
+    }
+    report.add_states(states);
+    report.add_transitions(steps);
+    report.add_traces(steps / 2);
+    report.count("single_step_flushes", fl);
+    report.count("single_step_refills", rf);
+    report.section(json!({"cfg": C::NAME, "part": "single-step induction from boundary head values", "head_values": heads.len(), "bulk_tops": tops.len(),
+        "letters": letters.len(), "states_satisfying_invariant": states, "real_encode_decode_calls": steps, "flushes": fl, "refills": rf}));
+}
+
 pub fn run(report: &Report) {
     use crate::models::*;
     let q = report.tier == Tier::Quick;
-    report.bound("histories over {encode(letter), decode(matching model)} up to the listed depth from each initial word string; single-step sweep over all 65536 head values of AnsCoder<u8,u16>");
+    report.bound("histories over {encode(letter), decode(matching model)} up to the listed depth from each initial word string; single-step sweep over all 65536 head values of AnsCoder<u8,u16> and over boundary head values of the six wider instantiations");
     report.assume("decode is only applied with the model of the most recent not-yet-decoded encode (decoding with other models is C04's domain)");
     for n in ["encode_flushed_a_word", "decode_refilled_a_word", "head_exactly_at_threshold", "pops_back_to_initial_export", "single_step_flushes", "single_step_refills"] {
         report.require(n);
     }
     single_step_all_states(report, report.tier);
+    {
+        let w = if q { 64 } else { 4096 };
+        single_step_boundary::<U8U32>(report, &pairs_alphabet::<U8U32>(), w);
+        single_step_boundary::<U8U64>(report, &pairs_alphabet::<U8U64>(), w);
+        single_step_boundary::<U16U32>(report, &pairs_alphabet::<U16U32>(), w);
+        single_step_boundary::<U16U64>(report, &pairs_alphabet::<U16U64>(), w);
+        single_step_boundary::<U32U64>(report, &pairs_alphabet::<U32U64>(), w);
+        single_step_boundary::<U64U128>(report, &pairs_alphabet::<U64U128>(), w);
+    }
     let empty: Vec<Vec<u128>> = vec![vec![]];
     explore::<U8U16>(report, &empty, &small_alphabet::<U8U16>(), if q { 6 } else { 7 }, "mixed-precision-14");
     explore::<U8U32>(report, &empty, &small_alphabet::<U8U32>(), if q { 6 } else { 7 }, "mixed-precision-14");
